@@ -35,6 +35,6 @@ json.dump(m,open('/verif/seeded/$NAME/meta.json','w'),indent=1)
 PY
   echo CONFIRMED
 else
-  echo NOT-CONFIRMED; tail -5 /tmp/confirm-$NAME.build /tmp/confirm-$NAME.tests /tmp/confirm-$NAME.demo_with /tmp/confirm-$NAME.demo_without
+  echo NOT-CONFIRMED; for f in build tests demo_with demo_without; do echo "== $f"; tail -n 8 /tmp/confirm-$NAME.$f; done
 fi
 rm -f /tmp/confirm-$NAME.*
